@@ -582,3 +582,58 @@ async fn standin_origin_sweep() {
         }
     }
 }
+
+/// cancel.keeps_dialers [C14]: a request that is still dialling keeps listening for released connections after a
+/// sibling request for the same origin has left (finished or been cancelled)
+#[tokio::test]
+async fn dialer_survives_sibling_leaving() {
+    for cancel_sibling in [true, false] {
+        let pool: TPool = Pool::new(cfg_bg(false));
+        let key = example_key();
+        let (_tx1, rx1) = tokio::sync::oneshot::channel::<MockStream>();
+        let (tx2, rx2) = tokio::sync::oneshot::channel::<MockStream>();
+        let mut a = Box::pin(pool.checkout(key.clone(), false, test_connector(MockTransport::channel(rx1), HttpProtocol::Http1)));
+        let mut b = Box::pin(pool.checkout(key.clone(), false, test_connector(MockTransport::channel(rx2), HttpProtocol::Http1)));
+        assert!(futures_util::poll!(&mut a).is_pending());
+        assert!(futures_util::poll!(&mut b).is_pending());
+        let token = a.token();
+        if cancel_sibling {
+            drop(b);
+            drop(tx2);
+        } else {
+            tx2.send(MockStream::single()).ok();
+            let done = tokio::time::timeout(Duration::from_secs(2), &mut b).await.expect("sibling hangs").unwrap();
+            std::mem::forget(done);
+            drop(b);
+        }
+        // a connection is released now: the request that is still dialling must take it at its next poll
+        let released = TestConn::h1();
+        let rid = released.id();
+        pool.inner.lock().push(token, released, pool.as_ref());
+        let got = tokio::time::timeout(Duration::from_secs(2), &mut a).await
+            .expect("waiting request ignored the released connection (keeps waiting for its own dial)").unwrap();
+        assert_eq!(got.id(), rid);
+        std::mem::forget(got);
+    }
+}
+
+/// frame.idle_writers / push.idle_bound [C15]: a pre-empted dial that completes in the background while the idle
+/// list is already full must not push the list over the limit
+#[tokio::test]
+async fn idle_bound_preempted_dial() {
+    let mut c = cfg_bg(true);
+    c.max_idle_per_host = 1;
+    let pool: TPool = Pool::new(c);
+    let key = example_key();
+    let (tx, rx) = tokio::sync::oneshot::channel::<MockStream>();
+    let a = pool.checkout(key.clone(), false, test_connector(MockTransport::channel(rx), HttpProtocol::Http1));
+    let token = a.token();
+    pool.inner.lock().push(token, TestConn::h1(), pool.as_ref()); // released in the meantime -> pre-empts a
+    let got = tokio::time::timeout(Duration::from_secs(2), a).await.expect("not pre-empted").unwrap();
+    pool.inner.lock().push(token, TestConn::h1(), pool.as_ref()); // fills the idle list (limit 1)
+    tx.send(MockStream::single()).ok(); // the abandoned dial completes in the background
+    for _ in 0..20 { tokio::task::yield_now().await; }
+    let n = pool.inner.lock().idle.get(&token).map(raw_len).unwrap_or(0);
+    assert!(n <= 1, "pool holds {n} idle connections for one origin, limit is 1");
+    std::mem::forget(got);
+}
